@@ -34,14 +34,13 @@ class Stream(object):
         g['reads'] = g['reads'] + 1
         c.check('read.size_nonnegative', n >= 0)
         c.check('read.within_limit', g['read_total'] + n <= g['limit'])
+        want = c.int('read_len_%d' % g['reads'] if isinstance(g['reads'], int) else 'read_len_k')
         if c.concrete:
-            k = max(0, min(n, self.avail, self.cap))
-            self.avail -= k
-            data = b'x' * k
+            data = b'x' * max(0, min(n, want))
         else:
             data = c.bytes('data', declare=False)
             ln = len_(c, data)
-            c.assume(And(ln >= 0, ln <= n))
+            c.assume(And(ln >= 0, ln <= n, ln == want))
         g['read_total'] = g['read_total'] + len_(c, data)
         return data
 
@@ -79,10 +78,7 @@ def reader(c):
     c.assume(And(mx >= 0, blk >= 1))
     app.max_content_length = mx
     app.block_length = blk
-    avail = c.int('stream_bytes_available')
-    cap = c.int('stream_chunk_cap')
-    c.assume(And(avail >= 0, cap >= 1))
-    env = {'wsgi.input': Stream(c, avail, cap)}
+    env = {'wsgi.input': Stream(c)}
     L = _declared(c, app, env)
     g = c.ghost
     g.update(read_total=0, yield_total=0, reads=0, limit=mx)
